@@ -275,6 +275,11 @@ type c17ReqSpec struct {
 	kind  string
 	n     int
 	shape string
+
+	// c17.hist (c17hist.go): the session store the client is given, and the history of configuration calls
+	hist  bool
+	store string
+	calls []string
 }
 
 func c17Req(sp c17ReqSpec) string {
@@ -290,8 +295,17 @@ func c17Req(sp c17ReqSpec) string {
 		}
 	}
 	// never dial a real address: neither by this client's table nor (on a tree where tables leak) by the other's
-	if c17WouldDialReal(dcs, sp.text) {
+	if !sp.hist && c17WouldDialReal(dcs, sp.text) {
 		return "refused:real-address"
+	}
+	var histCalls [][][2]string
+	if sp.hist {
+		if histCalls, ok = c17HistParse(sp.calls); !ok {
+			return "bad-op"
+		}
+		if c17HistWouldDialReal(histCalls, sp.text) {
+			return "refused:real-address"
+		}
 	}
 	if sp.second != nil {
 		if name, _, num := specSplit(string(sp.second.text)); num && name == "PHONE_MIGRATE_X" {
@@ -321,6 +335,8 @@ func c17Req(sp c17ReqSpec) string {
 			p.stop()
 		}
 	}()
+	histCleanup := func() {}
+	defer func() { histCleanup() }()
 	table := func(d [][2]string) map[int]string {
 		t := map[int]string{}
 		for _, e := range d {
@@ -329,7 +345,17 @@ func c17Req(sp c17ReqSpec) string {
 		return t
 	}
 	newClient := func() *mtproto.MTProto {
-		m, err := mtproto.NewMTProto(mtproto.Config{SessionStorage: c17KeyedSession{key, peers["H"].addr()}, ServerHost: peers["H"].addr()})
+		cfg := mtproto.Config{SessionStorage: c17KeyedSession{key, peers["H"].addr()}, ServerHost: peers["H"].addr()}
+		if sp.hist {
+			var started, cleanup func()
+			var okStore bool
+			if cfg, started, cleanup, okStore = c17HistStorage(sp.store, key, peers["H"].addr()); !okStore {
+				return nil
+			}
+			defer started()
+			histCleanup = cleanup
+		}
+		m, err := mtproto.NewMTProto(cfg)
 		if err != nil {
 			return nil
 		}
@@ -348,7 +374,26 @@ func c17Req(sp c17ReqSpec) string {
 	if m == nil {
 		return "setup-failed:NewMTProto"
 	}
-	m.SetDCList(table(dcs))
+	connected := false
+	if sp.hist {
+		// the history of configuration calls, in order; "C" is where CreateConnection happens (at the end when absent)
+		for _, call := range histCalls {
+			if call == nil {
+				if connected {
+					return "bad-op"
+				}
+				if err := m.CreateConnection(); err != nil {
+					return "setup-failed:CreateConnection"
+				}
+				connected = true
+				defer func() { _ = m.Disconnect() }()
+				continue
+			}
+			m.SetDCList(table(call))
+		}
+	} else {
+		m.SetDCList(table(dcs))
+	}
 	if sp.wantOther {
 		if sp.when == "a" {
 			if other = newClient(); other == nil {
@@ -359,10 +404,12 @@ func c17Req(sp c17ReqSpec) string {
 			other.SetDCList(table(dcsOther))
 		}
 	}
-	if err := m.CreateConnection(); err != nil {
-		return "setup-failed:CreateConnection"
+	if !connected {
+		if err := m.CreateConnection(); err != nil {
+			return "setup-failed:CreateConnection"
+		}
+		defer func() { _ = m.Disconnect() }()
 	}
-	defer func() { _ = m.Disconnect() }()
 
 	c17ReqCounter++
 	ping := int64(0x17000000 + c17ReqCounter)
@@ -497,6 +544,8 @@ func c17MigExec(op []string) (string, bool) {
 			second: &c17Answer{isErr: true, code: code32(op[4]), text: parseBytes(op[5])}}), true
 	case len(op) == 6 && op[0] == "c17.two":
 		return c17Req(c17ReqSpec{when: op[1], dcsOther: op[2], wantOther: true, dcs: op[3], code: code32(op[4]), text: parseBytes(op[5])}), true
+	case len(op) == 5 && op[0] == "c17.hist":
+		return c17Req(c17ReqSpec{hist: true, store: op[1], calls: strings.Split(op[2], "/"), dcs: "-", code: code32(op[3]), text: parseBytes(op[4])}), true
 	case op[0] == "c17.call" || op[0] == "c17.home":
 		return c17CallExec(op), true
 	}
@@ -525,6 +574,8 @@ func c17MigJudge(op []string, out string) string {
 			return ""
 		}
 		dcsTok, codeTok, textTok = op[3], op[4], op[5]
+	case "c17.hist":
+		dcsTok, codeTok, textTok = "-", op[3], op[4]
 	}
 	if strings.HasPrefix(out, "setup-failed") || strings.HasPrefix(out, "refused") || out == "bad-op" {
 		return ""
@@ -541,6 +592,20 @@ func c17MigJudge(op []string, out string) string {
 		for _, d := range dcs {
 			id, _ := strconv.ParseInt(d[0], 10, 64)
 			configured[id] = d[1]
+		}
+	}
+	if op[0] == "c17.hist" {
+		// every SetDCList call of the history configures: a later call overrides an earlier one for the ids it names
+		// and leaves the others as they were; when the connection is made does not matter
+		calls, ok := c17HistParse(strings.Split(op[2], "/"))
+		if !ok {
+			return ""
+		}
+		for _, call := range calls {
+			for _, d := range call {
+				id, _ := strconv.ParseInt(d[0], 10, 64)
+				configured[id] = d[1]
+			}
 		}
 	}
 	// what a structured error of (code, text) looks like, by the specification's families
@@ -581,6 +646,9 @@ func c17MigJudge(op []string, out string) string {
 	why := "request path: expected " + want
 	if op[0] == "c17.call" {
 		why = fmt.Sprintf("request path, a call whose answer is %s delivered %s: expected %s", c17KindWords(op[1]), c17ShapeWords(op[2]), want)
+	}
+	if op[0] == "c17.hist" {
+		why = fmt.Sprintf("request path, %s, configuration calls %s: expected %s", c17HistStoreWords(op[1]), c17HistCallsWords(op[2]), want)
 	}
 	if op[0] == "c17.two" {
 		// is the observed outcome what a client with the OTHER client's table would have done?
